@@ -805,7 +805,185 @@ def scenario_multifile(exe, mode_arg, payload):
     print('no failing input among %d (source tree, language) folder-output runs' % n)
 
 
-SCENARIOS = {'runs': scenario_runs, 'config': scenario_config, 'determinism': scenario_determinism, 'robust': scenario_robust, 'unsupported': scenario_unsupported, 'multifile': scenario_multifile}
+# ------------------------------------------------------------------------------------------------ C10: lexical well-formedness
+WF_LANGS = [('typescript', 'ts', []), ('kotlin', 'kt', ['--java-package', 'com.x']), ('swift', 'swift', []), ('scala', 'scala', ['--scala-package', 'com.x']),
+            ('go', 'go', ['--go-package', 'p']), ('python', 'py', [])]
+# identifiers that are keywords in some target, in every position a name can take (field, variant, struct-variant field, type)
+WF_EXTRA = {
+    'kw_fields': '#[typeshare]\npub struct KwFields { pub r#type: u32, pub r#enum: u32, pub r#struct: u32, pub default: u32, pub class: u32, pub from: u32, pub global: u32, '
+                 'pub lambda: u32, pub r#yield: u32, pub import: u32, pub is: u32, pub None: u32, pub protocol: u32, pub func: u32, pub r#where: u32, pub r#let: u32 }\n',
+    'kw_variants': '#[typeshare]\npub enum KwUnit { Default, Class, Import, Protocol, Type, None, True, r#Self }\n'
+                   '#[typeshare]\n#[serde(tag = "t", content = "c")]\npub enum KwData { Default(u32), Class { r#type: u32, from: String }, Import }\n',
+    'kw_renamed': '#[typeshare]\n#[serde(rename_all = "camelCase")]\npub struct KwRen { #[serde(rename = "class")] pub a: u32, #[serde(rename = "default")] pub b: u32, '
+                  '#[serde(rename = "in")] pub c: u32, pub r#type: Option<u32> }\n#[typeshare]\n#[serde(rename_all = "lowercase")]\npub enum KwLower { Class, Default, Import, In, Is }\n',
+    'docs_nasty': '/// ends with a backslash \\\\\n/// a quote " and a triple """ and */ and /* and // and #\n#[typeshare]\npub struct Doc1 {\n    /// field */ doc /* nested\n    /// ``` code ```\n    pub a: u32,\n}\n'
+                  '#[typeshare]\n#[serde(tag = "t", content = "c")]\npub enum Doc2 {\n    /// variant " doc\n    A(u32),\n    /** block\n     doc */\n    B { /// inner\n x: u32 },\n}\n',
+    'strings_nasty': '#[typeshare]\npub enum Str2 { #[serde(rename = "x\\"y")] A, #[serde(rename = "back\\\\slash")] B, #[serde(rename = "kebab-name")] C }\n'
+                     '#[typeshare]\n#[serde(tag = "t", content = "c")]\npub enum Str3 { #[serde(rename = "q-r")] A(u32), #[serde(rename = "with space")] B }\n'
+                     '#[typeshare]\npub struct Str4 { #[serde(rename = "kebab-field")] pub a: u32, #[serde(rename = "dotted.name")] pub b: u32 }\n',
+    'generics_nested': '#[typeshare]\npub struct Gen3<A, B> { pub m: HashMap<String, Vec<Option<HashMap<String, Vec<A>>>>>, pub b: Option<Option<B>>, pub arr: [Vec<A>; 3] }\n'
+                       '#[typeshare]\n#[serde(tag = "t", content = "c")]\npub enum GenE<T> { A(Vec<T>), B { x: HashMap<String, T> }, C }\n#[typeshare]\npub type GenAl<T> = Vec<HashMap<String, Option<T>>>;\n',
+    'empty_things': '#[typeshare]\npub struct Empty {}\n#[typeshare]\npub struct Unit;\n#[typeshare]\n#[serde(tag = "t", content = "c")]\npub enum OneEmpty { A {}, B(u32) }\n',
+}
+# KNOWN FINDING kf-c10-quote-in-algebraic-variant-rename (known_findings.json): replayed on every run, not part of the search
+WF_KF_QUOTE = '#[typeshare]\n#[serde(tag = "t", content = "c")]\npub enum Str3 { #[serde(rename = "q\\"r")] A(u32), B }\n'
+SWIFT_RESERVED = ['class', 'struct', 'enum', 'protocol', 'extension', 'func', 'import', 'init', 'deinit', 'let', 'var', 'default', 'case', 'switch', 'where', 'in',
+                  'is', 'as', 'for', 'while', 'return', 'self', 'Self', 'Type', 'Protocol', 'Any', 'nil', 'true', 'false', 'static', 'private', 'public', 'internal', 'operator',
+                  'subscript', 'typealias', 'associatedtype', 'inout', 'throws', 'throw', 'try', 'catch', 'guard', 'defer', 'do', 'else', 'if', 'break', 'continue', 'fallthrough', 'repeat', 'super']
+
+LEX = {
+    # (line comment, block open, block close, nested blocks, string quotes with escapes, raw/multi-line delimiters, char literal quote)
+    'typescript': dict(line='//', bo='/*', bc='*/', nest=False, strs=['"', "'", '`'], raw=[], char=None),
+    'kotlin': dict(line='//', bo='/*', bc='*/', nest=True, strs=['"'], raw=['"""'], char="'"),
+    'swift': dict(line='//', bo='/*', bc='*/', nest=True, strs=['"'], raw=['"""'], char=None),
+    'scala': dict(line='//', bo='/*', bc='*/', nest=True, strs=['"'], raw=['"""'], char="'"),
+    'go': dict(line='//', bo='/*', bc='*/', nest=False, strs=['"'], raw=['`'], char="'"),
+}
+
+
+def lex_check(lang, text):
+    """comments, string / character literals and brackets of a generated file: -> None or what is not closed"""
+    L = LEX[lang]
+    i, n, stack, line = 0, len(text), [], 1
+    while i < n:
+        c = text[i]
+        if c == '\n':
+            line += 1; i += 1; continue
+        if text.startswith(L['line'], i):
+            j = text.find('\n', i)
+            i = n if j < 0 else j
+            continue
+        if text.startswith(L['bo'], i):
+            depth, j = 1, i + 2
+            while j < n and depth:
+                if text.startswith(L['bc'], j):
+                    depth -= 1; j += 2
+                elif L['nest'] and text.startswith(L['bo'], j):
+                    depth += 1; j += 2
+                else:
+                    if text[j] == '\n':
+                        line += 1
+                    j += 1
+            if depth:
+                return 'a block comment opened in line %d is never closed' % line
+            i = j
+            continue
+        raw = next((r for r in L['raw'] if text.startswith(r, i)), None)
+        if raw:
+            j = text.find(raw, i + len(raw))
+            if j < 0:
+                return 'a %s literal opened in line %d is never closed' % (raw, line)
+            line += text.count('\n', i, j); i = j + len(raw)
+            continue
+        if c in L['strs']:
+            j = i + 1
+            while j < n and text[j] != c:
+                if text[j] == '\\':
+                    j += 1
+                if j < n and text[j] == '\n' and c != '`':
+                    return 'a string literal opened in line %d runs over the end of the line' % line
+                j += 1
+            if j >= n:
+                return 'a string literal opened in line %d is never closed' % line
+            i = j + 1
+            continue
+        if L['char'] and c == L['char']:
+            m = re.match(r"'(\\.|[^\\'\n])'", text[i:i + 4])
+            if m:
+                i += len(m.group(0)); continue
+            if lang == 'scala' and re.match(r"'[A-Za-z_]", text[i:i + 2]):
+                i += 1; continue   # symbol literal
+            return 'a character literal in line %d is not closed' % line
+        if c in '([{':
+            stack.append((c, line))
+        elif c in ')]}':
+            if not stack or '([{'.index(stack[-1][0]) != ')]}'.index(c):
+                return 'a `%s` in line %d closes nothing it could close%s' % (c, line, (' (open: `%s` from line %d)' % stack[-1]) if stack else '')
+            stack.pop()
+        i += 1
+    if stack:
+        return 'a `%s` opened in line %d is never closed' % stack[-1]
+    return None
+
+
+def swift_keyword_check(text):
+    """a reserved word used as a declared name must be written in backquotes"""
+    code = '\n'.join(l for l in text.splitlines() if not l.strip().startswith(('//', '*', '/*')))
+    for m in re.finditer(r'\b(let|var|case|struct|enum|class|typealias)[ \t]+([A-Za-z_][A-Za-z0-9_]*)\b', code):
+        if m.group(2) in SWIFT_RESERVED and not (m.group(1) == 'case' and m.group(2) == 'let'):
+            return 'the reserved word `%s` is declared as a name without backquotes: `%s`' % (m.group(2), m.group(0))
+    return None
+
+
+def wellformed_inputs():
+    out = dict(WF_EXTRA)
+    base = os.path.join(REPO, 'core', 'data', 'tests')
+    if os.path.isdir(base):
+        for d in sorted(os.listdir(base)):
+            p = os.path.join(base, d, 'input.rs')
+            if os.path.exists(p):
+                out['snapshot:' + d] = open(p, encoding='utf-8').read()
+    for k in ('self_reference', 'mutual_reference', 'binary_tree', 'container_payloads', 'container_fields', 'non_ascii_type_names', 'const_item', 'wellformed_decorators'):
+        out['robust:' + k] = ROBUST[k]
+    for k, v in MF_A.items():
+        out['mf:' + k] = v
+    return out
+
+
+def wellformed_case(exe, name, source, lang, ext, largs):
+    top = tempfile.mkdtemp(prefix='clirun-', dir=WORK)
+    try:
+        src = os.path.join(top, 'src')
+        tree(src, {'c/src/lib.rs': source})
+        outp = os.path.join(top, 'out.' + ext)
+        rc, out = run(exe, ['--lang', lang] + largs + ['--output-file', outp, src], cwd=src, timeout=20)
+        if rc != 0 or not os.path.exists(outp):
+            return None       # not a supported input for this language (or C07's business)
+        text = open(outp, encoding='utf-8').read()
+        if lang == 'python':
+            import ast
+            try:
+                ast.parse(text)
+            except SyntaxError as ex:
+                return 'CPython does not parse the generated module: %s (line %s: %s)' % (ex.msg, ex.lineno, (ex.text or '').strip()[:80])
+            return None
+        m = lex_check(lang, text)
+        if m:
+            return 'the generated %s file is not lexically closed: %s' % (lang, m)
+        if lang == 'swift':
+            return swift_keyword_check(text)
+        return None
+    finally:
+        shutil.rmtree(top, ignore_errors=True)
+
+
+def scenario_wellformed(exe, mode_arg, payload):
+    """C10 bound: every input of the repository's snapshot corpus (core/data/tests/*/input.rs) + 8 further sources (identifiers that are
+    keywords of a target in field / variant / type position, also through serde(rename); doc comments and renamed strings containing quotes,
+    backslashes and comment delimiters; deeply nested generics; empty structs and variants) + the sources of other scenarios, for each of the
+    6 languages the run accepts: Python - the generated module must be parsed by CPython's own parser (ast.parse, syntax only); TypeScript,
+    Kotlin, Swift, Scala, Go - every comment, string and character literal closed and every (, [, { matched (lexers written for this check;
+    NOT a parser: declaration grammar is not checked for these five); Swift - no reserved word declared as a name without backquotes."""
+    if mode_arg == 'check':
+        m = wellformed_case(exe, payload['input_name'], payload['source'], payload['lang'], payload['ext'], payload['largs'])
+        if m:
+            witness(payload, m)
+        print('input passes'); return
+    import concurrent.futures as cf
+    jobs = [(name, srcx, lang, ext, largs) for name, srcx in sorted(wellformed_inputs().items()) for (lang, ext, largs) in WF_LANGS]
+    with cf.ThreadPoolExecutor(max_workers=12) as ex:
+        results = list(ex.map(lambda j: (j, wellformed_case(exe, *j)), jobs))
+    if mode_arg == 'list':
+        for j, m in results:
+            if m:
+                print('FAIL', j[0], j[2], '::', m[:200])
+    for (name, srcx, lang, ext, largs), m in results:
+        if m:
+            witness({'input_name': name, 'lang': lang, 'ext': ext, 'largs': largs, 'source': srcx}, m)
+    print('no failing input among %d (source, language) runs' % len(jobs))
+
+
+SCENARIOS = {'runs': scenario_runs, 'config': scenario_config, 'determinism': scenario_determinism, 'robust': scenario_robust, 'unsupported': scenario_unsupported, 'multifile': scenario_multifile, 'wellformed': scenario_wellformed}
 
 
 def main():
